@@ -54,6 +54,9 @@ pub struct SpawnCase {
     pub closures: Vec<u8>,
     pub exit_code: u8,
     pub fault: Fault,
+    /// the caller's own descriptors 0/1/2 are closed while spawn runs (daemon-style caller)
+    #[serde(default)]
+    pub closed: [bool; 3],
 }
 
 fn helper_path() -> std::path::PathBuf {
@@ -350,10 +353,21 @@ fn run_case(c: &SpawnCase, root: &std::path::Path, rep: &mut CaseReport) -> Resu
     unsafe { libc::pipe2(mp.as_mut_ptr(), libc::O_CLOEXEC | libc::O_NONBLOCK) };
     let parent_pid = unsafe { libc::getpid() };
 
+    // daemon-style caller: some of its own descriptors 0/1/2 are closed during the call
+    let mut saved = [-1i32; 3];
+    for i in 0..3 {
+        if c.closed[i] {
+            saved[i] = unsafe { libc::fcntl(i as i32, libc::F_DUPFD_CLOEXEC, 700) };
+            if saved[i] >= 0 {
+                unsafe { libc::close(i as i32) };
+            }
+        }
+    }
     sc::verif::install();
     sc::verif::plan(rules);
     let result = no_panic("Command::spawn", || cmd.spawn());
     sc::verif::clear_plan();
+    let any_closed = c.closed.iter().any(|&b| b);
     if unsafe { libc::getpid() } != parent_pid {
         // we are a child that spawn() returned into: tell the parent and vanish
         unsafe {
@@ -442,7 +456,10 @@ fn run_case(c: &SpawnCase, root: &std::path::Path, rep: &mut CaseReport) -> Resu
                 for i in 0..3usize {
                     let f = fds.iter().find(|f| f["fd"].as_i64() == Some(i as i64));
                     let Some(f) = f else {
-                        fail!("spawn|standard stream closed in the child", "fd {i} is not open in the child");
+                        if c.closed[i] && c.stdio[i] <= 1 {
+                            continue;
+                        }
+                        fail!("spawn|standard stream closed in the child", "fd {i} is not open in the child although stream {i} was configured");
                     };
                     let (dev, ino, rdev) = (f["dev"].as_u64().unwrap(), f["ino"].as_u64().unwrap(), f["rdev"].as_u64().unwrap());
                     match c.stdio[i] {
@@ -453,6 +470,9 @@ fn run_case(c: &SpawnCase, root: &std::path::Path, rep: &mut CaseReport) -> Resu
                         4 => {
                             let id = &raw[i].as_ref().unwrap().1;
                             ensure!(dev == id.dev && ino == id.ino, "spawn|RawFd stream differs", "fd {i} in the child is not the descriptor that was passed");
+                        }
+                        0 | 1 if c.closed[i] => {
+                            // inherited a closed descriptor: nothing configured, nothing to compare
                         }
                         0 | 1 => {
                             let mine = fstat_ident(i as i32).unwrap();
@@ -471,6 +491,11 @@ fn run_case(c: &SpawnCase, root: &std::path::Path, rep: &mut CaseReport) -> Resu
                 }
                 Err(Failure::new(format!("spawn|Ok although {step} failed"), format!("spawn returned Ok(child) although {step} failed with errno {e:?}; dump present: {}", dump_path.exists())))
             }
+            (Err(e), Some(_)) if any_closed && errno_of(&e) == Some(libc::EINVAL) => {
+                // the dup2(n, n) rejection precedes the step that was expected to fail
+                rep.class("closed-std-fd:dup-einval");
+                Ok(())
+            }
             (Err(_), Some(_)) if read_fault => {
                 rep.class("sync-pipe-read-error");
                 Ok(())
@@ -480,6 +505,13 @@ fn run_case(c: &SpawnCase, root: &std::path::Path, rep: &mut CaseReport) -> Resu
                 ensure!(got == *want, format!("spawn|wrong errno for failing {step}"), "{step} failed with errno {want:?}, spawn returned {e}");
                 ensure!(!dump_path.exists() || step == "execve-after", "spawn|program ran although spawn failed", "the helper ran although {step} failed");
                 rep.class("err-step-errno-verified");
+                Ok(())
+            }
+            (Err(e), None) if any_closed && errno_of(&e) == Some(libc::EINVAL) => {
+                // with a standard descriptor closed in the caller, the child's end of a stream can
+                // already sit on its target number; dup2(n, n) is rejected by DUP3 with EINVAL and
+                // spawn reports that step's errno: a clean failure
+                rep.class("closed-std-fd:dup-einval");
                 Ok(())
             }
             (Err(e), None) => {
@@ -492,6 +524,15 @@ fn run_case(c: &SpawnCase, root: &std::path::Path, rep: &mut CaseReport) -> Resu
         }
     })();
 
+    // restore the caller's own standard descriptors (the Child value and its pipes are gone by now)
+    for i in 0..3 {
+        if saved[i] >= 0 {
+            unsafe {
+                libc::dup2(saved[i], i as i32);
+                libc::close(saved[i]);
+            }
+        }
+    }
     // marker check (after everything is reaped by the caller)
     let mut b = [0u8; 8];
     let n = unsafe { libc::read(mp[0], b.as_mut_ptr().cast(), 8) };
@@ -532,6 +573,7 @@ fn run_case(c: &SpawnCase, root: &std::path::Path, rep: &mut CaseReport) -> Resu
     rep.class_if(c.stdio.iter().any(|&s| s == 3), "stdio-pipe");
     rep.class_if(c.stdio.iter().any(|&s| s == 2), "stdio-null");
     rep.class_if(c.stdio.iter().any(|&s| s == 4), "stdio-rawfd");
+    rep.class_if(any_closed, "caller-std-fd-closed");
     let _ = parent_std;
     Ok(())
 }
@@ -584,8 +626,13 @@ pub fn case_strategy() -> impl Strategy<Value = SpawnCase> {
         prop::collection::vec(prop_oneof![9 => Just(0u8), 1 => prop::sample::select(vec![2u8, 13, 5, 1])], 0..3),
         any::<u8>(),
         fault_strategy(),
+        prop_oneof![5 => Just([false; 3]), 1 => [any::<bool>(), any::<bool>(), any::<bool>()]],
     )
-        .prop_map(|(prog, args, env, cwd, pgroup, ids, stdio, closures, exit_code, fault)| SpawnCase { prog, args, env, cwd, pgroup, ids, stdio, closures, exit_code, fault })
+        .prop_map(|(prog, args, env, cwd, pgroup, ids, stdio, closures, exit_code, fault, closed)| {
+            // the closed-descriptor knob is combined only with fault-free runs of the helper
+            let closed = if fault == Fault::None && prog == 0 { closed } else { [false; 3] };
+            SpawnCase { prog, args, env, cwd, pgroup, ids, stdio, closures, exit_code, fault, closed }
+        })
 }
 
 pub fn run(ctx: &Ctx) {
